@@ -699,7 +699,7 @@ def run_targeted(tc, tools_asan, tools_plain, scratch, env):
 def tool_oracle(ctx, asan, plain, rnd, quick, env):
     t0 = time.time()
     cap = caps(ctx.scratch)
-    n_cases = 56 if quick else 1400
+    n_cases = 56 if quick else 800
     tools = asan["tools"]
     stats = dict(images=0, images_ok=0, refused=0, by_profile={}, by_comp={}, by_mode={}, counts={}, caps=cap, targeted={})
     results = []
